@@ -315,6 +315,70 @@ fn boundary(a: &Args) {
     write_json(&a.str("out"), &acc.to_json());
 }
 
+/// history w=64|32 n=N seed=S out=<json> : the functions are pure - the result for b must not depend on the call made just
+/// before.  Pairs (a, b) that agree in their low half, in their high half, or in all but one bit are evaluated back to
+/// back (f(a) then f(b)) and the round trip of b is checked, in both directions.
+fn history(a: &Args) {
+    silence_panics();
+    let w = a.u64_or("w", 64) as u32;
+    let n = a.u64_or("n", 1_000_000);
+    let seed = a.u64_or("seed", 1);
+    let mask: u64 = if w == 64 { !0 } else { (1u64 << w) - 1 };
+    let half = w / 2;
+    let mut rng = rng_from(seed, 1_950_000);
+    let mut acc = Acc::default();
+    for i in 0..n {
+        let x = rng.next_u64() & mask;
+        let k = (rng.next_u64() & ((1u64 << half) - 1)).max(1);
+        let b = match i % 3 {
+            0 => x ^ (k << half),            // same low half
+            1 => x ^ k,                      // same high half
+            _ => x ^ (1u64 << (rng.next_u32() % w)), // one bit apart
+        } & mask;
+        let r = catch(|| {
+            let _ = ih(w, x);
+            let ib = ih(w, b);
+            let back = h(w, ib);
+            let _ = h(w, x);
+            let hb = h(w, b);
+            let back2 = ih(w, hb);
+            (ib, back, hb, back2)
+        });
+        acc.n += 1;
+        match r {
+            Ok((ib, back, hb, back2)) => {
+                if back != b {
+                    acc.fail_hi += 1;
+                    if acc.kept_hi < KEEP {
+                        acc.kept_hi += 1;
+                        let mut f = fail(w, "inverse_then_hash", b, Some(ib), Some(back), None);
+                        f["called_just_before"] = json!(format!("{:#x}", x));
+                        acc.first.push(f);
+                    }
+                }
+                if back2 != b {
+                    acc.fail_ih += 1;
+                    if acc.kept_ih < KEEP {
+                        acc.kept_ih += 1;
+                        let mut f = fail(w, "hash_then_inverse", b, Some(hb), Some(back2), None);
+                        f["called_just_before"] = json!(format!("{:#x}", x));
+                        acc.first.push(f);
+                    }
+                }
+            }
+            Err(m) => {
+                acc.fail_hi += 1;
+                acc.panics += 1;
+                if acc.kept_hi < KEEP {
+                    acc.kept_hi += 1;
+                    acc.first.push(fail(w, "inverse_then_hash", b, None, None, Some(m)));
+                }
+            }
+        }
+    }
+    write_json(&a.str("out"), &acc.to_json());
+}
+
 fn bits(w: u32, x: u64) -> Vec<u8> {
     (0..w).map(|i| ((x >> i) & 1) as u8).collect()
 }
@@ -380,6 +444,35 @@ fn one(a: &Args) {
     let w = a.u64_or("w", 64) as u32;
     let x = a.u64_or("x", 0);
     let mut acc = Acc::default();
+    if let Some(_) = a.get("before") {
+        // a failure that was seen when the same function had just been called on another word: the same call sequence
+        let p = a.u64_or("before", 0);
+        acc.n += 1;
+        match catch(|| {
+            let _ = ih(w, p);
+            let ib = ih(w, x);
+            let back = h(w, ib);
+            let _ = h(w, p);
+            let hb = h(w, x);
+            (ib, back, hb, ih(w, hb))
+        }) {
+            Ok((ib, back, hb, back2)) => {
+                if back != x {
+                    acc.fail_hi += 1;
+                    acc.first.push(fail(w, "inverse_then_hash", x, Some(ib), Some(back), None));
+                }
+                if back2 != x {
+                    acc.fail_ih += 1;
+                    acc.first.push(fail(w, "hash_then_inverse", x, Some(hb), Some(back2), None));
+                }
+            }
+            Err(m) => {
+                acc.fail_hi += 1;
+                acc.panics += 1;
+                acc.first.push(fail(w, "inverse_then_hash", x, None, None, Some(m)));
+            }
+        }
+    }
     check_slow(w, x, &mut acc);
     let r = catch(|| (h(w, x), ih(w, x)));
     let (hx, ihx) = match r {
@@ -403,6 +496,7 @@ fn main() {
         "exh32" => exh32(&a),
         "rt64" => rt64(&a),
         "boundary" => boundary(&a),
+        "history" => history(&a),
         "record" => record(&a),
         "one" => one(&a),
         other => tool_error(&format!("unknown subcommand {}", other)),
